@@ -100,6 +100,12 @@ PROP = {
         "c18_resolver_closure_state": {"calls_of_the_resolver": ["filter.CommandKeys", "getConn", "resolveBisyncCommandKeys"],
                                        "declared_outside_the_resolver": ["conn", "connErr", "connOnce", "getConn"],
                                        "indexed_by_the_resolver": [], "written_by_the_resolver": []},
+        # every package-level variable written after init() in the files the builder / the commit reach (key tables, slot functions,
+        # control-key constructors, the cluster batcher): the slot-tag table and nothing else; its first use under concurrency: harness C18first
+        "c18_process_globals": ["pkg/redis/checkpoint/bisync.go:bisyncSlotTagCache:BisyncSlotTag:.Store",
+                                "pkg/redis/checkpoint/bisync.go:bisyncSlotTagCache:initBisyncSlotTags:.Store",
+                                "pkg/redis/checkpoint/bisync.go:bisyncSlotTagsBySlot:initBisyncSlotTags:assigned",
+                                "pkg/redis/checkpoint/bisync.go:bisyncSlotTagsOnce:BisyncSlotTag:.Do"],
         "c18_commandgetkeys_calls": {"calls": ["cluster.getRandomNode", "make", "len", "append", "append", "cluster.do", "common.Strings"],
                                      "loops_or_goroutines": 0},
     },
@@ -159,6 +165,13 @@ PROP = {
             "Harness C18first (vf_c18_first_test.go, seeded C18-r8-m1): 12 fresh processes per quick run (60 thorough, built with -race), GOMAXPROCS 1/2/4/8; as the first thing the "
             "process does 8 goroutines released by one barrier ask for slot tags (checkpoint.BisyncSlotTag / the real builder on a key of a known slot); every answer checked: tag non-empty, "
             "HASH_SLOT({tag}) = slot, marker / latest / index / commit-record keys on the slot (monitor first-use-slot-tag, replay = child seed + GOMAXPROCS); each tag also an op c18 tag. "
+            "Dimension audit (vf_c18_dim_test.go, forced cases, counters dim_* / cfg_*): 21 degenerate keys (the EMPTY key = slot 0, {}, {}x, {, }, a{b, }{a}, {a}{b}, {}{a}, {a, {{a}}, "
+            "0x00, 0xff.., {0x00}, a 300-byte key, keys of slot 0 and 16383) each alone, twice in one command (DEL k k, RENAME k k, MSET k v k w), across commands and beside a key of another slot; "
+            "two DIFFERENT tags of one slot; commands without arguments / without keys (EVAL .. 0); transactions whose FIRST / LAST command has no key; upper / mixed-case names AND subcommand "
+            "/ option words (XGROUP create / CreateConsumer / SETID, SORT .. store, GEORADIUS .. Store, ZUNIONSTORE .. weights, XREADGROUP .. Streams) - all through replayOne (builder c+s, batcher, "
+            "commit into the node doubles) and the real parser; a unit whose slot has no owner in the client's slot map at COMMIT time (refused, nothing sent); every degenerate key through the real "
+            "buildBisyncRdbReplayUnit x replaceHashTag on/off x string/hash/list/zset x restore/expanded (336 units); lanes of the parallel mode drawn from 0 (ask the cluster, falls back to one) / "
+            "1 / 2 / 3 / 16; keyExists = error drawn. "
             "distinct_nontrivial = distinct accepted single-slot transactions",
     "trusted": ["Redis Cluster HASH_SLOT as transcribed in Model/Slot.lean (C11)",
                 "key positions of the 81 generator command shapes, written from the Redis command reference (harness oracle only)",
